@@ -1,5 +1,6 @@
 """C08 — on-chain spends lose at most a bounded fee and fund only validated channels."""
 import lib
+import gen_rustfn
 
 MANIFEST = dict(
     text="Coq theorem C08_ok_implies: for every transaction (any number of inputs / outputs, amounts unbounded naturals "
@@ -56,7 +57,19 @@ def _strip(c):
 
 def run(res):
     quick = res.tier == "quick"
-    lib.proof_stage(res, "C08.v", "Props.C08", PINNED)
+    # the translator regenerates Gen/TxUtilGen.v from /repo's transaction_utils.rs under the build lock, right before
+    # the theorem that relates it to the model's feerate estimate is re-checked
+    tx_report = {}
+
+    def regen():
+        tx_report.update(gen_rustfn.generate_txutil(lib.REPO))
+    try:
+        lib.proof_stage(res, "C08.v", "Props.C08", PINNED + ["C08_feerate_estimate_is_source"], pre=regen)
+    except gen_rustfn.GenError as e:
+        res.violation("the translator cannot read estimate_feerate_per_kw (a construct outside its fragment): %s" % e,
+                      {"translator": "tools/gen_rustfn.py", "source": "vls-core/src/util/transaction_utils.rs",
+                       "error": str(e), "theorem": "C08_feerate_estimate_is_source"}, has_input=False)
+    res.coverage["translated_from_source"] = tx_report
     ok, out = lib.build_coq(["theories/Model/OnchainCheck.vo"])     # the executable comparison used below
     if not ok:
         raise lib.Fail("Model/OnchainCheck.v did not build:\n" + out[-2000:])
